@@ -98,7 +98,8 @@ func (ve *VimeoExtractor) getDataFromSrcURL(srcURL string) (string, map[string]s
 		srcURL = "http:" + srcURL
 	}
 
-	parsedURL, err := nurl.ParseRequestURI(srcURL)
+	// The URL may have a fragment, which is not part of the path
+	parsedURL, err := nurl.Parse(srcURL)
 	if err != nil {
 		return "", nil
 	}
